@@ -18,6 +18,7 @@ tree this pass is the identity.  What was inlined is reported in the evidence.""
 import copy
 import json
 import os
+import re
 
 from core import strip_generics
 
@@ -173,6 +174,49 @@ def _retarget(obj, local, target):
     _walk(obj, f)
 
 
+_TOK = re.compile(r"[A-Za-z_][A-Za-z0-9_]*|\d+(?:_usize)?|\S")
+
+
+def _bind_generics(pairs):
+    """Bindings {generic parameter name: concrete text} read off by matching a helper's declared types against
+    the types at the call site (`[u8; N]` against `[u8; 8]`): single upper-case-initial identifiers only."""
+    out = {}
+    for gen, conc in pairs:
+        if not isinstance(gen, str) or not isinstance(conc, str) or gen == conc:
+            continue
+        a, b = _TOK.findall(gen), _TOK.findall(conc)
+        if len(a) != len(b):
+            continue
+        cand = {}
+        okp = True
+        for x, y in zip(a, b):
+            if x == y:
+                continue
+            if re.match(r"^[A-Z][A-Za-z0-9_]*$", x) and re.match(r"^\d+(_usize)?$", y) and cand.get(x, y) == y:
+                cand[x] = y
+            else:
+                okp = False
+                break
+        if okp:
+            for k, v in cand.items():
+                if out.get(k, v) == v:
+                    out[k] = v
+    return out
+
+
+def _subst_types(obj, binds):
+    if not binds:
+        return
+    rx = re.compile(r"\b(%s)\b" % "|".join(re.escape(k) for k in binds))
+
+    def f(d):
+        ty = d.get("ty")
+        if isinstance(ty, str) and rx.search(ty):
+            d["ty"] = rx.sub(lambda m: binds[m.group(1)], ty)
+
+    _walk(obj, f)
+
+
 def _splice(caller, bi, helper):
     """Replace the call terminating caller block `bi` by the body of `helper`."""
     t = caller["blocks"][bi]["term"]
@@ -183,6 +227,14 @@ def _splice(caller, bi, helper):
     hl = copy.deepcopy(helper["locals"])
     for l in hl:
         l["i"] += N
+    # const generics of the helper, as instantiated at this call
+    pairs = [(helper["locals"][0]["ty"], t["dest"].get("ty"))]
+    for i, a in enumerate(t["args"]):
+        if 1 + i < len(helper["locals"]) and a.get("place"):
+            pairs.append((helper["locals"][1 + i]["ty"], a["place"].get("ty")))
+    binds = _bind_generics(pairs)
+    _subst_types(hb, binds)
+    _subst_types(hl, binds)
     hv = copy.deepcopy(helper["vars"])
     self_is_self = bool(t["args"]) and t["args"][0].get("k") in ("move", "copy") and not t["args"][0]["place"]["proj"] and _root_self(caller, t["args"][0]["place"]["local"])
     for v in hv:
